@@ -303,7 +303,9 @@ fn check_name(ctx: &Ctx, proto: &Proto, exhaustive: bool, stride: usize, bound2:
 
 fn seq_spec(proto: &Proto, depth_extra: usize, devs: usize) -> SeqSpec {
     let cfg = cfg_for(proto, &[]);
-    let h = honest(proto);
+    // the honest schedule must consist of state-changing calls only: the "next honest step" is chosen from
+    // the state, and a state-neutral call (the raw-split query) would be a self-loop that merging cuts off
+    let h: Vec<Op> = honest(proto).into_iter().filter(|o| !matches!(o, Op::RawSplit { .. })).collect();
     let clean_w = wire_bytes(&sess::run(&cfg, &h));
     let n = proto.n_msgs();
     let ov = overheads(proto);
@@ -367,8 +369,8 @@ fn seq_spec(proto: &Proto, depth_extra: usize, devs: usize) -> SeqSpec {
     });
     let total = h.len();
     let hh3 = h;
-    let goal = Arc::new(move |e: &Exec| e.steps.iter().filter(|s| s.real.is_ok() && hh3.contains(&s.op)).count() >= total.min(2 * n + 6));
-    SeqSpec { cfg, prefix: vec![], max_depth: 2 * n + 4 + depth_extra, max_devs: devs, alphabet, judge, goal }
+    let goal = Arc::new(move |e: &Exec| e.steps.iter().filter(|s| s.real.is_ok() && hh3.contains(&s.op)).count() >= total.min(2 * n + 4));
+    SeqSpec { cfg, prefix: vec![], max_depth: 2 * n + 2 + depth_extra, max_devs: devs, alphabet, judge, goal }
 }
 
 pub fn run(tier: Tier) -> i32 {
@@ -415,8 +417,11 @@ pub fn run(tier: Tier) -> i32 {
         ctx.add(&ctx.traces, r.transitions);
         ctx.count("e2_states", r.states);
         ctx.count("e2_transitions", r.transitions);
+        if std::env::var("C07_DEBUG").is_ok() {
+            eprintln!("{}: states {} generated {} transitions {} max_depth {} goal {} outcomes {:?}", p.name, r.states, r.generated, r.transitions, r.max_depth, r.goal_reached, r.outcomes);
+        }
         if !r.goal_reached {
-            ctx.note(format!("{}: E2 goal not reached", p.name));
+            ctx.vacuous(format!("{}: E2 goal not reached", p.name));
         }
         for (sig, d, hist) in &r.verdicts {
             ctx.violation(sig.clone(), d.clone(), sess::case_json(&s.cfg, hist));
